@@ -22,15 +22,32 @@ RULE = (
     "between consecutive end points, last segment not closing, a string, a list with a non-curve) must raise and "
     "produce no curve. Non-trivial: a curved segment or >= 5 vertices."
 )
-MANDATORY = ["from_vertices", "from_segments", "from_ctrlpoints", "from_full_curve", "malformed:gap", "malformed:not-closing",
+MANDATORY = ["from_vertices", "from_segments", "from_ctrlpoints", "from_full_curve", "from_full_curve-with-reducible-spans", "malformed:gap", "malformed:not-closing",
              "malformed:string", "malformed:non-curve", "cw", "ccw"]
+
+
+def _elevate(seg, d):
+    """control points of the same Bezier segment written with degree d"""
+    pts = [tuple(p) for p in seg]
+    while len(pts) - 1 < d:
+        n = len(pts) - 1
+        new = [pts[0]]
+        for i in range(1, n + 1):
+            a = F(i, n + 1) if all(rg.is_exact(v) for p in pts for v in p) else i / (n + 1)
+            new.append((a * pts[i - 1][0] + (1 - a) * pts[i][0], a * pts[i - 1][1] + (1 - a) * pts[i][1]))
+        new.append(pts[-1])
+        pts = new
+    return pts
 
 
 def _make_full_curve(curve):
     import pynurbs
 
     Sp = lib.sp()
-    d = len(curve[0]) - 1
+    d = max(len(s) - 1 for s in curve)
+    # spans of lower degree are written degree-elevated: the full curve has one
+    # degree, from_full_curve must reduce every span back
+    curve = [_elevate(s, d) for s in curve]
     n = len(curve)
     knots = [F(0)] * (d + 1)
     for k in range(1, n):
@@ -71,10 +88,10 @@ def judge(ctx, case):
         builders.append(("from_vertices", lambda: Sp.JordanCurve.from_vertices([s[0] for s in curve])))
     builders.append(("from_segments", lambda: Sp.JordanCurve.from_segments([Sp.PlanarCurve(list(s)) for s in curve])))
     builders.append(("from_ctrlpoints", lambda: Sp.JordanCurve.from_ctrlpoints([list(s) for s in curve])))
-    if uniform and not polygon:
+    if not polygon or case.get("full_polygon"):
         builders.append(("from_full_curve", lambda: Sp.JordanCurve.from_full_curve(_make_full_curve(curve))))
-    elif uniform and polygon and case.get("full_polygon"):
-        builders.append(("from_full_curve", lambda: Sp.JordanCurve.from_full_curve(_make_full_curve(curve))))
+        if not uniform:
+            ctx.count("stratum:from_full_curve-with-reducible-spans")
     strata = [b[0] for b in builders] + ["ccw" if area > 0 else "cw"]
     ctx.evaluated(case, (not polygon) or nverts >= 5, strata)
     built = []
@@ -141,6 +158,22 @@ def judge(ctx, case):
             pass
         except BaseException as exc:
             ctx.violation("observe", "raised", case, "%s: %r" % (name, exc), innermost_shapepy_frame(exc))
+    # every rendering supports the in-place operations that rely on junction
+    # points being shared between consecutive segments
+    import copy as _copy
+
+    for name, j in built:
+        try:
+            with call_limit(120):
+                jj = _copy.deepcopy(j)
+                jj.split([0], [F(1, 2)])
+                jj.invert()
+                jj.invert()
+                jj.clean()
+                if (jj == j) is not True:
+                    ctx.violation("agree", "split-invert-clean-changes-the-curve", case, name, name)
+        except BaseException as exc:
+            ctx.violation("agree", "in-place-operation-raised", case, "%s: %r" % (name, exc), name)
     # pairwise agreement
     for i in range(len(built)):
         for k in range(i + 1, len(built)):
@@ -157,6 +190,16 @@ def judge(ctx, case):
                 ctx.violation("agree", "constructors-not-equal", case, "%s == %s -> %r / %r" % (na, nb, eq, eq2), na + "/" + nb)
             if abs(fa - fb) > 1e-9 * max(abs(fa), 1.0):
                 ctx.violation("agree", "signed-length-differs", case, "%s %r vs %s %r" % (na, fa, nb, fb), na + "/" + nb)
+
+
+    # finally on the built objects themselves (not copies): the last rendering
+    for name, j in built[-1:]:
+        try:
+            with call_limit(120):
+                j.split([len(curve) - 1], [F(1, 3)])
+                j.invert()
+        except BaseException as exc:
+            ctx.violation("agree", "in-place-operation-raised", case, "%s (original object): %r" % (name, exc), name)
 
 
 def judge_malformed(ctx, case):
